@@ -27,8 +27,8 @@ type Source struct {
 	Fn      *ssa.Function
 	Def     ssa.Value // *ssa.Index / *ssa.Lookup / *ssa.Parameter / *ssa.Call / *ssa.Extract
 	Key     string
-	Kind    string // index | param | result
-	Variant bool   // carries case-variant data (false: clean value with a known mask)
+	Kind    string  // index | param | result
+	Variant bool    // carries case-variant data (false: clean value with a known mask)
 	Mask    ByteSet // every value the source can hold
 	VMask   ByteSet // parameters: values arriving as case-variant data
 	fields  map[string]bool
